@@ -17,6 +17,7 @@ struct Ledger {
 	void reset() { live.clear(); errors.clear(); constructed = destroyed = copies = moves = 0; onDeath = nullptr; }
 
 	void born(const void * p, int cls, int id, bool moved = false, int copyDepth = 0) {
+		HarnessScope hs;
 		++constructed;
 		auto it = live.find(p);
 		if(it != live.end()) {
@@ -27,6 +28,7 @@ struct Ledger {
 		live.emplace(p, Rec{cls, id, moved, copyDepth});
 	}
 	void died(const void * p, int cls, int id) {
+		HarnessScope hs;
 		++destroyed;
 		auto it = live.find(p);
 		if(it == live.end()) { errors.push_back(fmt("destruction of an object that is not alive (class %d id %d): destroyed twice or never constructed", cls, id)); return; }
@@ -35,6 +37,7 @@ struct Ledger {
 		if(onDeath) onDeath(cls, id, mv, cd);
 	}
 	bool touch(const void * p, int cls, int id) {
+		HarnessScope hs;
 		auto it = live.find(p);
 		if(it == live.end()) { errors.push_back(fmt("access to an object after its destruction (class %d id %d)", cls, id)); return false; }
 		return true;
